@@ -322,6 +322,10 @@ def _len_lower_bound(fl, node, name, base_lb, len_alias=None):
                     continue
                 g = fl.edge_guard(lambda q, t=t: q is t, arm)
                 if fl.dominated([node], guard_edge=g):
+                    # the test speaks about the value that is indexed only if the name is not rebound in between
+                    # (`if len(p) == 0: raise` ... `p = inflate(p)` ... `p[0]`)
+                    if name.isidentifier() and fl.rd[c.id].get(name) != fl.rd[node.id].get(name):
+                        continue
                     lb = est
                     changed = True
     return lb
